@@ -16,7 +16,8 @@
 (***************************************************************************)
 EXTENDS Naturals, Sequences, FiniteSets, TLC, Json
 
-CONSTANTS MaxLen, Names, Emit
+CONSTANTS MaxLen, Names, Emit,
+          UseRoles, UseDecos   \* sub-vocabulary of this run (the full vocabulary is Roles x Decos below)
 
 Roles == {"plain", "overload", "property", "setter", "deleter"}
 \* Every definition may carry one more, unrelated pass-through decorator, above or below the one that
@@ -136,7 +137,8 @@ Visit ==
   /\ cursor' = cursor + 1
   /\ UNCHANGED <<prog, scope>>
 
-Defs == {d \in [name : Names, role : Roles, deco : Decos] : d.role = "plain" => d.deco # "below"}
+ASSUME UseRoles \subseteq Roles /\ UseDecos \subseteq Decos
+Defs == {d \in [name : Names, role : UseRoles, deco : UseDecos] : d.role = "plain" => d.deco # "below"}
 Progs == UNION {[1..n -> Defs] : n \in 1..MaxLen}
 
 Init ==
